@@ -134,6 +134,10 @@ func discharge(obs []*Obligation, opt solveOpts) {
 				o.Result, o.Backend = "unsat", "trivial"
 				return
 			}
+			if o.vc == nil {
+				o.Result, o.Backend = "failed", "structural"
+				return
+			}
 			if o.formula == "false" && !o.Cover {
 				// structural failure (e.g. a callee without frame): no solver needed
 				o.Result, o.Backend = "failed", "structural"
